@@ -596,6 +596,35 @@ def rule_r11(prog, res):
                         'outside the target namespace the type marker does '
                         'not resolve in the transmitted document' %
                         f.qualname)
+        # the computed declaration reaches the element unchanged
+        for c in declared:
+            kw = [k.value for k in c.keywords if k.arg == 'nsmap'][0]
+            if not isinstance(kw, ast.Name):
+                continue
+            sts = sorted([b_ for b_ in walk_no_defs(f.node)
+                          if isinstance(b_, ast.Assign) and any(
+                              isinstance(t, ast.Name) and t.id == kw.id
+                              for t in b_.targets)], key=lambda b_: b_.lineno)
+            comp = [b_ for b_ in sts if not (isinstance(
+                b_.value, ast.Constant) and b_.value.value is None)]
+            if not comp:
+                continue
+            later = [b_ for b_ in sts if comp[0].lineno < b_.lineno <
+                     c.lineno and b_ not in comp]
+            res.ob('R11', '%s:%d' % (f.module.relpath, c.lineno),
+                   '%s: %s computed at line %d, %d later resets before the '
+                   'element is created' % (f.qualname, kw.id, comp[0].lineno,
+                                           len(later)),
+                   'VIOLATED' if later else 'ok')
+            for b_ in later:
+                res.finding('R11', '%s|declaration-dropped' % f.qualname,
+                            '%s:%d' % (f.module.relpath, b_.lineno),
+                            '%s discards the computed prefix declaration '
+                            '(%s) before creating the element: the xsi:type '
+                            'value keeps its prefix but the element does not '
+                            'declare it (a namespace the parent has in scope '
+                            'under another prefix does not help)' % (
+                                f.qualname, unparse(b_)))
     res.floor('R11', 'functions writing a prefixed xsi:type', n, 2)
 
 
@@ -631,6 +660,15 @@ _I = 'spyne/interface/_base.py'
 _H = 'spyne/protocol/dictdoc/hier.py'
 
 MUTANTS = [
+    Mutant('xsi-prefix-declaration-dropped', 'R11', 'fire',
+           'spyne/protocol/xml.py',
+           in_func('XmlDocument.gen_members_parent',
+                   "        if isinstance(parent, etree._Element):\n",
+                   "        if isinstance(parent, etree._Element):\n"
+                   "            if nsmap is not None and cls.get_namespace() "
+                   "in parent.nsmap.values():\n"
+                   "                nsmap = None\n"),
+           'declaration-dropped'),
     Mutant('xsi-prefix-not-declared', 'R11', 'fire', _X,
            in_func('XmlDocument.gen_members_parent',
                    r"elt = etree\.SubElement\(parent, tag_name, "
